@@ -471,6 +471,15 @@ def module_roundtrip(enc, style):
     body = texts[enc]
     src = ("## -*- coding: %s -*-\n" % enc if style in ("comment", "both") else "") + body + "${'!'}\n"
     kw = {"input_encoding": enc} if style in ("input_encoding", "both") else {}
+    bom = b""
+    if style in ("bom", "bom+comment"):
+        # a UTF-8 file that starts with a byte-order mark (which is not template content), with or without a coding comment
+        import codecs
+        if enc != "utf-8":
+            return []
+        bom = codecs.BOM_UTF8
+        src = ("## -*- coding: utf-8 -*-\n" if style == "bom+comment" else "") + body + "${'!'}\n"
+        kw = {}
     if style == "conflicting":
         # the comment names the file's real encoding, input_encoding another one: the comment takes precedence
         src = "## -*- coding: %s -*-\n" % enc + body + "${'!'}\n"
@@ -480,15 +489,24 @@ def module_roundtrip(enc, style):
     try:
         f = os.path.join(base, "t.html")
         with open(f, "wb") as fp:
-            fp.write(src.encode(enc))
+            fp.write(bom + src.encode(enc))
         for stage in ("generate", "reload"):
             try:
                 got = Template(filename=f, module_directory=os.path.join(base, "mods"), **kw).render_unicode()
             except Exception as e:
                 got = "raised %s: %s" % (type(e).__name__, e)
             out.append((stage, got, body + "!\n"))
-        got = Template(filename=f, **kw).render_unicode()
+        try:
+            got = Template(filename=f, **kw).render_unicode()
+        except Exception as e:
+            got = "raised %s: %s" % (type(e).__name__, e)
         out.append(("memory", got, body + "!\n"))
+        try:
+            from mako.lookup import TemplateLookup
+            got = TemplateLookup([base], **kw).get_template("t.html").render_unicode()
+        except Exception as e:
+            got = "raised %s: %s" % (type(e).__name__, e)
+        out.append(("lookup-memory", got, body + "!\n"))
     finally:
         shutil.rmtree(base, ignore_errors=True)
     return out
@@ -887,3 +905,41 @@ def runtime_error_display(prefix):
     hl = [shown[idx]] if 0 <= idx < len(shown) else []
     m = re.search(r'File "/t/page.html", line (\d+), in render_body\n\s*(.*)', text)
     return dict(line=want, html_shown=shown, html_highlighted=hl, text=(int(m.group(1)), m.group(2)) if m else None)
+
+
+def output_errors_probe(construction, oe, errors):
+    """render() must be render_unicode().encode(output_encoding, encoding_errors), however the Template came to life"""
+    import os
+    import shutil
+    import tempfile
+    from mako.template import Template
+    from mako.lookup import TemplateLookup
+    text = "<%def name='d()'>caf\u00e9 \u20ac</%def>caf\u00e9 \u20ac ${d()}"
+    base = tempfile.mkdtemp(prefix="c18out")
+    try:
+        if construction == "Template":
+            t = Template(text, output_encoding=oe, encoding_errors=errors)
+        elif construction == "lookup.put_string":
+            lk = TemplateLookup(output_encoding=oe, encoding_errors=errors)
+            lk.put_string("/t", text)
+            t = lk.get_template("/t")
+        else:
+            with open(os.path.join(base, "t"), "w", encoding="utf-8") as f:
+                f.write(text)
+            lk = TemplateLookup([base], output_encoding=oe, encoding_errors=errors,
+                                module_directory=os.path.join(base, "m") if construction == "lookup-file-module-directory" else None)
+            t = lk.get_template("/t")
+        if construction == "lookup-get_def":
+            t = t.get_def("d")
+        uni = t.render_unicode()
+        try:
+            want = ("ok", uni.encode(oe, errors))
+        except UnicodeEncodeError:
+            want = ("raises UnicodeEncodeError",)
+        try:
+            got = ("ok", t.render())
+        except UnicodeEncodeError:
+            got = ("raises UnicodeEncodeError",)
+        return got, want
+    finally:
+        shutil.rmtree(base, ignore_errors=True)
